@@ -103,6 +103,32 @@ PNAMES = ["p", "my_prop", "Val", "a-b", "x1", "class", "9lives", "camelCase"]
 FORMATS = [None, None, None, "date", "date-time", "uuid", "binary", "byte", "email"]
 
 
+def has_tuple(s):
+    if not isinstance(s, dict) or "$ref" in s:
+        return False
+    if s.get("prefixItems") and isinstance(s.get("items"), dict):
+        return True
+    subs = list((s.get("properties") or {}).values()) + [s.get("items"), s.get("additionalProperties")] + list(s.get("prefixItems") or [])
+    for k in ("anyOf", "oneOf", "allOf"):
+        subs += list(s.get(k) or [])
+    return any(has_tuple(x) for x in subs)
+
+
+def rebuilt_tuple(s):
+    """a tuple array (prefixItems + items) below a schema whose anyOf/oneOf members are built more than once (a type list expands
+    them once per listed type): ListProperty.build appends `items` to the SAME prefixItems list on every build (listed finding
+    prefix_items_grow_on_rebuild) - stateful, outside Norm.v"""
+    if not isinstance(s, dict) or "$ref" in s:
+        return False
+    t = s.get("type")
+    if (isinstance(t, list) or (isinstance(t, str) and s.get("nullable"))) and any(has_tuple(m) for k in ("anyOf", "oneOf") for m in (s.get(k) or [])):
+        return True
+    subs = list((s.get("properties") or {}).values()) + [s.get("items"), s.get("additionalProperties")] + list(s.get("prefixItems") or [])
+    for k in ("anyOf", "oneOf", "allOf"):
+        subs += list(s.get(k) or [])
+    return any(rebuilt_tuple(x) for x in subs)
+
+
 def respell(s, rng):
     """the same schema in another of the notations C17 calls equivalent (only rewrites whose tree equality is proved for every
     position: nullable <-> type list, reference <-> wrapper without extra default); unchanged when none applies"""
